@@ -120,7 +120,7 @@ CHECKS = {
         "table), loads returns a dictionary or the library error, the PDS/ICC walkers terminate, VBS/IPM readers over any "
         "file end in end-of-data or the library error, and the tool wrapper therefore returns normally or with a "
         "diagnostic (Props/C07.lean). Tied to /repo by ~30k structure-aware mutants, random bytes, mutated files and CLI "
-        "runs, each under a 2 s watchdog, compared with the model and an outcome oracle. In addition a SOURCE TIE: harness/pytrans.py translates the current Python text of iso8583._pds_to_dict and _icc_to_dict (while loops, fuel-indexed) into Lean (Gen/Src.lean) on every run and lean/Cardutil/SrcTie/Pds.lean proves, for all inputs, that the translation equals the model (and restates the property for the translated code); when the source changes so that this no longer checks, the check runs its thorough generators before answering (the correspondence remains the deciding tie). Likewise iso8583._string_to_pytype (the typed conversion: int / Decimal / datetime by the configured type) is translated and lean/Cardutil/SrcTie/Field.lean proves string_to_pytype_eq and C07_source_typed_conversion (under the caller's handler it gives a value or the library's data error); for the readers, lean/Cardutil/SrcTie/IpmReader.lean and IpmBlocked.lean prove C07_source_vbs_reader_total, C07_source_ipm_reader_total and C07_source_blocked_readers_total: over ANY bytes the translated VbsReader.__next__ / IpmReader.__next__ (plain and 1014-blocked) return a record, end of data or the library's error — nothing else escapes, nothing diverges (for any message decoder that itself ends in a dictionary or the data error).",
+        "runs, each under a 2 s watchdog, compared with the model and an outcome oracle. In addition a SOURCE TIE: harness/pytrans.py translates the current Python text of iso8583._pds_to_dict and _icc_to_dict (while loops, fuel-indexed) into Lean (Gen/Src.lean) on every run and lean/Cardutil/SrcTie/Pds.lean proves, for all inputs, that the translation equals the model (and restates the property for the translated code); when the source changes so that this no longer checks, the check runs its thorough generators before answering (the correspondence remains the deciding tie). Likewise iso8583._string_to_pytype (the typed conversion: int / Decimal / datetime by the configured type) is translated and lean/Cardutil/SrcTie/Field.lean proves string_to_pytype_eq and C07_source_typed_conversion (under the caller's handler it gives a value or the library's data error); for the readers, lean/Cardutil/SrcTie/IpmReader.lean and IpmBlocked.lean prove C07_source_vbs_reader_total, C07_source_ipm_reader_total and C07_source_blocked_readers_total: over ANY bytes the translated VbsReader.__next__ / IpmReader.__next__ (plain and 1014-blocked) return a record, end of data or the library's error — nothing else escapes, nothing diverges (for any message decoder that itself ends in a dictionary or the data error); for the WHOLE element decoder as translated, lean/Cardutil/SrcTie/FieldWhole.lean proves C07_source_text_element_total: on a text element and ANY bytes it returns a value or the library's data error.",
         "Trusted: Lean kernel; standard axioms; hand-written model incl. the modelled exception kinds of int(), decode, "
         "strptime, struct, unhexlify (validated by correspondence); configurations with a decimal field are excluded "
         "(explicit hypothesis ConfigOK).",
